@@ -232,12 +232,15 @@ func (s *Server) followCheckSome(addr string, followc int, auth string,
 	if err != nil {
 		return 0, err
 	}
-	if pos == fullpos {
+	if pos == int64(s.aofsz) {
+		// the whole local log was verified against the leader's
 		if s.opts.ShowDebugMessages {
 			log.Debug("follow: aof fully intact")
 		}
 		return pos, nil
 	}
+	// Everything after pos is unverified (or known to differ) and must go,
+	// also when pos happens to fall exactly on a command boundary.
 	log.Warnf("truncating aof to %d", pos)
 	// any error below are fatal.
 	s.aof.Close()
